@@ -103,6 +103,9 @@ pub struct LineIo {
     pub max_instr: u64,
     /// when the replies are used up start again with the first (very long dialogues)
     pub cycle_replies: bool,
+    /// upper bound on execute() calls for this line (0 = derived from max_instr); for lines whose
+    /// work is not counted in instructions (LIST)
+    pub max_slices: u64,
 }
 
 impl Default for LineIo {
@@ -113,6 +116,7 @@ impl Default for LineIo {
             intrs: vec![],
             max_instr: 200_000,
             cycle_replies: false,
+            max_slices: 0,
         }
     }
 }
@@ -556,7 +560,7 @@ impl World {
         let mut instr: u64 = 0;
         let mut slices: u64 = 0;
         let mut budget_fired = false;
-        let hard_cap = io.max_instr.saturating_mul(2) + 200_000;
+        let hard_cap = if io.max_slices > 0 { io.max_slices } else { io.max_instr.saturating_mul(2) + 200_000 };
         loop {
             if self.fatal.is_some() {
                 break;
